@@ -190,9 +190,14 @@ def decompress(filename, tmpdir=None, target=None):
     compfile = get_compressor(fmt)
     try:
         if fmt == 'zip':
-            shutil.copyfileobj(compfile(filename, 'r').open(filebase, 'r'),
-                               tmpfile,
-                               chunksize)
+            with compfile(filename, 'r') as archive:
+                # The member is normally named like the archive. But the
+                # archive might have been renamed (e.g. by FileSet.move()):
+                members = archive.namelist()
+                if filebase not in members and len(members) == 1:
+                    filebase = members[0]
+                with archive.open(filebase, 'r') as member:
+                    shutil.copyfileobj(member, tmpfile, chunksize)
         else:
             shutil.copyfileobj(compfile(filename, 'r'),
                                tmpfile,
